@@ -245,6 +245,7 @@ paths:
   "/plain/{p}": {get: {operationId: plain, parameters: [{name: p, in: path, required: true, schema: {type: string}}], responses: {"200": {description: ok}}}}
   "/a%2Fb": {get: {operationId: slash, responses: {"200": {description: ok}}}}
   "/tilde~/x": {get: {operationId: tilde, responses: {"200": {description: ok}}}}
+  "/\u00fc/{p}": {get: {operationId: raw, parameters: [{name: p, in: path, required: true, schema: {type: string}}], responses: {"200": {description: ok}}}}
 `
 	mod, err := gencode.NewModule(r.Scratch, "srvmod")
 	if err != nil {
@@ -270,6 +271,8 @@ paths:
 		{"/a%2Fb", "/a%2fb", "/%61%2Fb", "/a%2F%62"},
 		{"/tilde~/x", "/tilde%7E/x", "/tilde%7e/x", "/tilde~/%78"},
 		{"/plain/x", "/plain/%78", "/%70lain/x", "/plain/X"},
+		// a template written with the raw character: its only legal spelling on the wire is escaped
+		{"/%C3%BC/v", "/%c3%bc/v", "/%C3%BC/%76", "/%c3%BC/v"},
 	}
 	var targets []string
 	for _, g := range groups {
